@@ -359,6 +359,67 @@ func checkVirtualSize(c *Ctx, fn *ssa.Function) {
 // checkCountsPerPass: the author's retry loop re-fetches the complete input set on every pass, so the input-kind
 // counts handed to the size estimator must be recomputed from zero in every pass: none of them may be carried
 // around the retry loop (a phi at its header), or a retry counts the inputs of the earlier passes again.
+// checkInitialFeeTargetIsLowerBound: before it has seen any coin the author asks its input source for "outputs + an
+// initial fee" and reports insufficient funds if the source cannot reach that. The initial fee must therefore not exceed
+// the fee any real selection can require: the size it is estimated from assumes no input, or exactly one input of the
+// kind with the smallest weight (read from the size constants). Assuming a larger kind refuses coins of a smaller kind
+// that do cover the outputs plus their own required fee.
+func checkInitialFeeTargetIsLowerBound(c *Ctx, fn *ssa.Function) {
+	p := c.P
+	est := pkgFn(c, "C07-R3", "wallet/txsizes", "EstimateVirtualSize")
+	if est == nil {
+		return
+	}
+	// weight of one input per kind, by the estimator's own parameter naming (numP2PKHIns, ...)
+	weights := map[int]int64{}
+	var minW int64 = -1
+	for i, prm := range est.Params {
+		name := prm.Name()
+		if !strings.HasPrefix(name, "num") || !strings.HasSuffix(name, "Ins") {
+			continue
+		}
+		k := strings.TrimSuffix(strings.TrimPrefix(name, "num"), "Ins")
+		base, ok1 := constInPkg(p, "wallet/txsizes", "Redeem"+k+"InputSize")
+		wname := "Redeem" + k + "InputWitnessWeight"
+		if k == "NestedP2WPKH" {
+			wname = "RedeemP2WPKHInputWitnessWeight"
+		}
+		wit, ok2 := constInPkg(p, "wallet/txsizes", wname)
+		if k == "P2PKH" {
+			wit, ok2 = 0, true
+		}
+		if !ok1 || !ok2 {
+			c.Unresolved("C07-R3", "size constants of input kind "+k)
+			return
+		}
+		weights[i] = base*4 + wit
+		if minW < 0 || weights[i] < minW {
+			minW = weights[i]
+		}
+	}
+	loops := loopsOf(fn)
+	n := 0
+	for _, call := range callsNamed(fn, "EstimateVirtualSize") {
+		if innermostLoopOf(loops, call) != nil {
+			continue
+		}
+		n++
+		var total int64
+		okConst := true
+		for i, w := range weights {
+			k, isK := constInt(call.Call.Args[i])
+			if !isK {
+				okConst = false
+				continue
+			}
+			total += k * w
+		}
+		c.Check("C07-R3", "initial-fee-target-is-lower-bound", call.Pos(), okConst && total <= minW,
+			fmt.Sprintf("the fee the author demands before it has seen any coin is estimated for inputs weighing %d weight units, more than the lightest single input (%d): coins of a lighter kind that cover the outputs plus their own required fee are refused with 'insufficient funds'", total, minW))
+	}
+	c.Floor("C07-R3", "initial size estimates in NewUnsignedTransaction", n, 1)
+}
+
 func checkCountsPerPass(c *Ctx, fn *ssa.Function) {
 	n := 0
 	for _, est := range callsNamed(fn, "EstimateVirtualSize") {
@@ -505,6 +566,7 @@ func checkInputSizeConstantsAgree(c *Ctx) {
 func checkAuthor(c *Ctx, fn *ssa.Function) {
 	p := c.P
 	checkCountsPerPass(c, fn)
+	checkInitialFeeTargetIsLowerBound(c, fn)
 	checkInputSizeConstantsAgree(c)
 	checkFeeFormula(c)
 	// the change output value: NewTxOut(int64(changeAmount), script)
